@@ -13,13 +13,26 @@ theorem textRead_good (raw : Bytes) : textRead good raw = raw := rfl
 theorem isEmpty_iff_nil (d : Bytes) : d.isEmpty = true ↔ d = [] := by
   cases d <;> simp
 
+/-- while `/proc/<pid>` exists, `_is_zombie()` says what the specification calls "known to be a zombie" -/
+theorem isZombie_eq (w : World) (hd : w.dirExists = true) : isZombie w = Spec.zombie w := by
+  simp [isZombie, statOk, statThere, Spec.zombie, hd]
+
+theorem statThere_eq (w : World) (hd : w.dirExists = true) : statThere w = w.statExists := by
+  simp [statThere, hd]
+
+theorem isZombie_gone (w : World) (hd : w.dirExists = false) : isZombie w = false := by
+  simp [isZombie, statOk, statThere, hd]
+
+theorem statThere_gone (w : World) (hd : w.dirExists = false) : statThere w = false := by
+  simp [statThere, hd]
+
 theorem cmdline_data (w : World) (d : Bytes) (hd : w.dirExists = true) (hc : w.cmdline = .data d) :
-    cmdline good w = cmdlineOf w.zombie d := by
+    cmdline good w = cmdlineOf (Spec.zombie w) d := by
   unfold cmdline cmdlineRaw readFile cmdlineOf
-  simp only [hd, hc, if_true, textRead_good, bind, Except.bind, isZombie, Bool.true_and]
+  simp only [hd, hc, if_true, textRead_good, bind, Except.bind, isZombie_eq w hd]
   by_cases he : d = []
   · subst he
-    cases hz : w.zombie <;> simp [wrap]
+    cases hz : Spec.zombie w <;> simp [wrap]
   · have : d.isEmpty = false := by
       cases h : d.isEmpty with
       | false => rfl
@@ -28,7 +41,7 @@ theorem cmdline_data (w : World) (d : Bytes) (hd : w.dirExists = true) (hc : w.c
 
 theorem cmdline_gone (w : World) (hd : w.dirExists = false) :
     cmdline good w = .error .noSuchProcess := by
-  simp [cmdline, cmdlineRaw, readFile, hd, bind, Except.bind, wrap, isZombie]
+  simp [cmdline, cmdlineRaw, readFile, hd, bind, Except.bind, wrap, isZombie_gone w hd, statThere_gone w hd]
 
 theorem cmdline_denied (w : World) (hd : w.dirExists = true) (hc : w.cmdline = .err .eacces) :
     cmdline good w = .error .accessDenied := by
@@ -37,8 +50,8 @@ theorem cmdline_denied (w : World) (hd : w.dirExists = true) (hc : w.cmdline = .
 /-- the exception plumbing of `wrap_exceptions` on an OS error of a file below `/proc/<pid>` -/
 theorem fileErr_wrap {α : Type} (w : World) (e : Err) (x : Exc) (hd : w.dirExists = true)
     (h : fileErr w e = some x) : wrap w (.error (.os e) : Raw α) = .error x := by
-  cases e <;> cases hz : w.zombie <;> simp [fileErr, hz] at h <;> subst h <;>
-    simp [wrap, isZombie, hd, hz]
+  cases e <;> cases hz : Spec.zombie w <;> cases hs : w.statExists <;> simp [fileErr, hz, hs] at h <;>
+    subst h <;> simp [wrap, isZombie_eq w hd, statThere_eq w hd, hz, hs]
 
 theorem cmdline_err (w : World) (e : Err) (hd : w.dirExists = true) (hc : w.cmdline = .err e) :
     cmdline good w = wrap w (.error (.os e)) := by
@@ -71,7 +84,7 @@ theorem environ_sound (w : World) (r : Res Dict) (h : Spec.environ w = some r) :
   | false =>
     simp only [hd, Bool.not_false, if_true, Option.some.injEq] at h
     rw [← h]
-    simp [environ, environRaw, readFile, hd, bind, Except.bind, wrap, isZombie]
+    simp [environ, environRaw, readFile, hd, bind, Except.bind, wrap, isZombie_gone w hd, statThere_gone w hd]
   | true =>
     simp only [hd, Bool.not_true, Bool.false_eq_true, if_false] at h
     cases hc : w.environ with
@@ -97,7 +110,7 @@ theorem link_sound (w : World) (l : LinkSt) (r : Res Bytes) (h : Spec.link w l =
   | false =>
     simp only [hd, Bool.not_false, if_true, Option.some.injEq] at h
     rw [← h]
-    simp [readlinkRaw, effLink, hd, wrap, isZombie]
+    simp [readlinkRaw, effLink, hd, wrap, isZombie_gone w hd, statThere_gone w hd]
   | true =>
     simp only [hd, Bool.not_true, Bool.false_eq_true, if_false] at h
     cases l with
@@ -113,13 +126,13 @@ theorem link_sound (w : World) (l : LinkSt) (r : Res Bytes) (h : Spec.link w l =
         rw [← h]
         simp [readlinkRaw, effLink, hd, wrap]
       | enoent =>
-        simp only [Option.some.injEq] at h
-        rw [← h]
-        cases hz : w.zombie <;> simp [readlinkRaw, effLink, hd, wrap, isZombie, hz]
+        cases hz : Spec.zombie w <;> cases hs : w.statExists <;> cases hr : w.statReadable <;>
+          simp [hz, hs, hr] at h <;> rw [← h] <;>
+          simp [readlinkRaw, effLink, hd, wrap, isZombie_eq w hd, hz]
       | esrch =>
-        simp only [Option.some.injEq] at h
-        rw [← h]
-        cases hz : w.zombie <;> simp [readlinkRaw, effLink, hd, wrap, isZombie, hz]
+        cases hz : Spec.zombie w <;> cases hs : w.statExists <;> cases hr : w.statReadable <;>
+          simp [hz, hs, hr] at h <;> rw [← h] <;>
+          simp [readlinkRaw, effLink, hd, wrap, isZombie_eq w hd, hz]
 
 theorem cwd_sound (w : World) (r : Res Bytes) (h : Spec.cwd w = some r) : cwd good w = r :=
   link_sound w w.cwd r h
@@ -341,41 +354,64 @@ theorem nameLen_good (n : Bytes) : nameLen good n = n.length := rfl
 theorem namePrefix_good (n e : Bytes) : namePrefix good n e = n.isPrefixOf e := rfl
 theorem nameMinLen_good : good.nameMinLen = 15 := rfl
 
+/-- reading `stat` under `wrap_exceptions`, in closed form: gone (no directory, or no `stat` in it) →
+    NoSuchProcess; unreadable → AccessDenied -/
+theorem statRead_eq {α : Type} (w : World) (v : α) :
+    wrap w (match readStat w with | .ok _ => .ok v | .error e => .error e)
+      = if !w.dirExists || !w.statExists then .error .noSuchProcess
+        else if !w.statReadable then .error .accessDenied else .ok v := by
+  cases hd : w.dirExists <;> cases hs : w.statExists <;> cases hr : w.statReadable <;>
+    simp [readStat, statThere, wrap, isZombie, statOk, hd, hs, hr]
+
+theorem procName_eq (w : World) :
+    procName w = if !w.dirExists || !w.statExists then .error .noSuchProcess
+                 else if !w.statReadable then .error .accessDenied else .ok w.comm := statRead_eq w w.comm
+
+theorem procTty_eq (w : World) :
+    procTty w = if !w.dirExists || !w.statExists then .error .noSuchProcess
+                else if !w.statReadable then .error .accessDenied else .ok w.tty := statRead_eq w w.tty
+
 theorem name_sound (w : World) (r : Res Bytes) (h : Spec.name w = some r) : name good w = r := by
   unfold Spec.name at h
-  cases hd : w.dirExists with
-  | false =>
-    simp only [hd, Bool.not_false, if_true, Option.some.injEq] at h
+  by_cases hg : (!w.dirExists || !w.statExists) = true
+  · simp only [hg, if_true, Option.some.injEq] at h
     rw [← h]
-    simp [name, procName, hd]
-  | true =>
-    simp only [hd, Bool.not_true, Bool.false_eq_true, if_false] at h
-    by_cases hlen : w.comm.length < commMax
-    · simp only [hlen, if_true, Option.some.injEq] at h
+    simp [name, procName_eq, hg]
+  · simp only [hg, if_false] at h
+    have hd : w.dirExists = true := by
+      cases hx : w.dirExists <;> simp [hx] at hg ⊢
+    by_cases hr : (!w.statReadable) = true
+    · simp only [hr, if_true, Bool.false_eq_true, if_false, Option.some.injEq] at h
       rw [← h]
-      have : ¬ (15 ≤ w.comm.length) := by unfold commMax at hlen; omega
-      simp [name, procName, hd, nameLen_good, nameMinLen_good, this]
-    · have h15 : 15 ≤ w.comm.length := by unfold commMax at hlen; omega
-      simp only [hlen, if_false] at h
-      cases hc : Spec.cmdline w with
-      | none => simp [hc] at h
-      | some cr =>
-        have hm := cmdline_sound w cr hc
-        cases cr with
-        | error e =>
-          cases e <;>
-            (simp only [hc, Option.some.injEq] at h
-             rw [← h]
-             simp [name, procName, hd, nameLen_good, nameMinLen_good, h15, hm])
-        | ok argv =>
-          simp only [hc, Option.some.injEq] at h
-          rw [← h]
-          cases argv with
-          | nil => simp [name, procName, hd, nameLen_good, nameMinLen_good, h15, hm, nameRule]
-          | cons a0 rest =>
-            simp only [name, procName, hd, if_true, nameLen_good, nameMinLen_good, h15, hm,
-              namePrefix_good, nameRule, List.head?_cons, basename_eq_base, commMax, true_and]
-            by_cases hp : w.comm.isPrefixOf (base a0) = true <;> simp [hp]
+      simp [name, procName_eq, hg, hr]
+    · simp only [hr, if_false] at h
+      by_cases hlen : w.comm.length < commMax
+      · simp only [hlen, if_true, Bool.false_eq_true, if_false, Option.some.injEq] at h
+        rw [← h]
+        have : ¬ (15 ≤ w.comm.length) := by unfold commMax at hlen; omega
+        simp [name, procName_eq, hg, hr, nameLen_good, nameMinLen_good, this]
+      · have h15 : 15 ≤ w.comm.length := by unfold commMax at hlen; omega
+        simp only [hlen, if_false] at h
+        cases hc : Spec.cmdline w with
+        | none => simp [hc] at h
+        | some cr =>
+          have hm := cmdline_sound w cr hc
+          cases cr with
+          | error e =>
+            cases e <;>
+              (simp only [hc, Bool.false_eq_true, if_false, Option.some.injEq] at h
+               rw [← h]
+               simp [name, procName_eq, hg, hr, nameLen_good, nameMinLen_good, h15, hm])
+          | ok argv =>
+            simp only [hc, Bool.false_eq_true, if_false, Option.some.injEq] at h
+            rw [← h]
+            cases argv with
+            | nil => simp [name, procName_eq, hg, hr, nameLen_good, nameMinLen_good, h15, hm, nameRule]
+            | cons a0 rest =>
+              simp only [name, procName_eq, hg, hr, if_false, Bool.false_eq_true, nameLen_good,
+                nameMinLen_good, h15, hm, if_true,
+                namePrefix_good, nameRule, List.head?_cons, basename_eq_base, commMax, true_and]
+              by_cases hp : w.comm.isPrefixOf (base a0) = true <;> simp [hp]
 
 /-- the worlds of the `exe()` calls of a history -/
 def exeWorldsOf (hist : List (World × Call)) : List World :=
